@@ -12,6 +12,7 @@
 package c07
 
 import (
+	"io"
 	"bytes"
 	"encoding/json"
 	"fmt"
@@ -39,9 +40,16 @@ type Case struct {
 	Recs  []int         `json:"recs,omitempty"` // record ids into the record alphabet
 	Big   bool          `json:"big,omitempty"`  // record alphabet of the thorough tier
 	N     int           `json:"n,omitempty"`    // "ladder": a file of N records (ids follow a fixed pattern)
+	// "export-history": a strip mesh of Hist[0] triangles with normals HistModes[0] is exported, then
+	// one of Hist[1] triangles with HistModes[1], …; the last export is judged
+	Hist      []int    `json:"hist,omitempty"`
+	HistModes []string `json:"hist_modes,omitempty"`
 }
 
-type checker struct{ c *core.Ctx }
+type checker struct {
+	c    *core.Ctx
+	over *Case // set: violations carry this (history) case instead of the single call's
+}
 
 func (k checker) fail(site, clause, class, detail string, cs Case) {
 	k.c.Violate(core.Violation{Site: site, Clause: clause, Class: class, Detail: detail, Case: cs})
@@ -144,6 +152,11 @@ func (k checker) meshCase(s meshlib.Spec, mode string) {
 	n := s.PrimCount()
 	class := indexClass(s) + "/normals-" + mode
 	scope := "mesh/normals-" + mode
+	if k.over != nil {
+		cs = *k.over
+		class = "after-other-exports/" + class
+		scope = "export-history/normals-" + mode
+	}
 	alarmed := true
 	switch {
 	case !hasPosition(s):
@@ -433,7 +446,7 @@ func geoNormal(p [3][3]float32) (vector3.Float64, bool) {
 // ---------------------------------------------------------------------------------------------
 
 func run(c *core.Ctx) {
-	k := checker{c}
+	k := checker{c: c}
 	c.ReportedOnly("mesh/no-position", "meshes without a Position attribute are outside the property's precondition (the writer emits a header-only file); run and counted, never alarmed")
 	c.ReportedOnly("mesh/zero-mean-normals", "facets whose corner normals cancel have no normalised mean; run and counted, never alarmed")
 
@@ -558,6 +571,30 @@ func run(c *core.Ctx) {
 		}
 		base++
 	}
+
+	// (c') export histories: the writer is a function of the mesh it is handed, whatever was exported
+	// before — every ordered pair over a menu of sizes (below, at and above block sizes a writer may
+	// stage records in) x {with normals, without}, the second export judged by the whole oracle
+	hsizes := []int{1, 100, 300, 4096, 4106, 5000, 8195}
+	hmodes := []string{"nonunit", "none"}
+	nh := 0
+	for _, na := range hsizes {
+		for _, ma := range hmodes {
+			for _, nb := range hsizes {
+				for _, mb := range hmodes {
+					if na == nb && ma == mb {
+						continue
+					}
+					nh++
+					if c.Mine(base) && !c.Expired() {
+						k.exportHistory([]int{na, nb}, []string{ma, mb})
+					}
+					base++
+				}
+			}
+		}
+	}
+	c.Bound("c.export_histories", fmt.Sprintf("%d ordered pairs over strip meshes of %v triangles x normals %v; the second export is judged", nh, hsizes, hmodes))
 
 	// (d) value ladder: every float32 magnitude band through every float slot of a record and every
 	// position component of a mesh
@@ -773,7 +810,7 @@ func replay(c *core.Ctx) {
 		c.HarnessError("bad case: %v", err)
 		return
 	}
-	k := checker{c}
+	k := checker{c: c}
 	switch cs.Kind {
 	case "mesh":
 		if cs.Spec == nil {
@@ -785,6 +822,8 @@ func replay(c *core.Ctx) {
 		k.bytesCase(cs.Hdr, cs.Recs, cs.Big)
 	case "ladder":
 		k.ladderCase(cs.Hdr, cs.N, cs.Big)
+	case "export-history":
+		k.exportHistory(cs.Hist, cs.HistModes)
 	case "after-failed-write":
 		k.afterFailedWrite()
 	case "save-over":
@@ -796,4 +835,28 @@ func replay(c *core.Ctx) {
 	default:
 		c.HarnessError("unknown case kind %q", cs.Kind)
 	}
+}
+
+// stripSpec: n triangles (i, i+1, i+2) over n+2 vertices at pairwise distinct positions.
+func stripSpec(n int) meshlib.Spec {
+	s := meshlib.Spec{Topo: "tri", V: n + 2, Mix: "P"}
+	for i := 0; i < n; i++ {
+		if i%2 == 0 {
+			s.Idx = append(s.Idx, i, i+1, i+2)
+		} else {
+			s.Idx = append(s.Idx, i+1, i, i+2)
+		}
+	}
+	return s
+}
+
+func (k checker) exportHistory(sizes []int, modes []string) {
+	cs := Case{Kind: "export-history", Hist: sizes, HistModes: modes}
+	for i := 0; i+1 < len(sizes); i++ {
+		m := buildMesh(stripSpec(sizes[i]), modes[i])
+		core.Guard(func() { _ = stl.WriteMesh(io.Discard, m) })
+	}
+	last := len(sizes) - 1
+	k.over = &cs
+	k.meshCase(stripSpec(sizes[last]), modes[last])
 }
